@@ -12,6 +12,7 @@ import (
 type Loader struct {
 	targetsDir string
 	cache      map[string]*RawConfig
+	resolving  map[string]bool // targets whose inheritance is being resolved (cycle detection)
 }
 
 // NewLoader creates a new target configuration loader
@@ -59,6 +60,15 @@ func (l *Loader) Load(name string) (*Config, error) {
 	if err != nil {
 		return nil, err
 	}
+
+	if l.resolving[name] {
+		return nil, fmt.Errorf("inheritance cycle detected at target config %s", name)
+	}
+	if l.resolving == nil {
+		l.resolving = make(map[string]bool)
+	}
+	l.resolving[name] = true
+	defer delete(l.resolving, name)
 
 	return l.resolveInheritance(raw)
 }
